@@ -29,6 +29,43 @@ fn b<const N: usize>(v: &[u8]) -> Bytes<N> {
     Bytes::from_slice(v).unwrap()
 }
 
+/// Give `buf` the look of a DER element: SEQUENCE tag and a length field that is consistent with
+/// the buffer, too short or too long (real certificates and ECDSA signatures start like this;
+/// code that "understands" the content must still emit every byte).
+fn derify(buf: &mut [u8], src: &mut Src) -> &'static str {
+    let n = buf.len();
+    if n < 4 || src.chance(1, 3) {
+        return "content:random";
+    }
+    buf[0] = 0x30;
+    let style = src.below(4);
+    let declared = |body: usize, src: &mut Src| -> usize {
+        match src.below(4) {
+            0 | 1 => body,
+            2 => body.saturating_sub(1 + src.below(8)),
+            _ => body + 1 + src.below(8),
+        }
+    };
+    match style {
+        0 if n - 2 < 128 => {
+            buf[1] = declared(n - 2, src) as u8 & 0x7F;
+            "content:der-short-length"
+        }
+        1 | 0 if n >= 3 => {
+            buf[1] = 0x81;
+            buf[2] = declared(n - 3, src) as u8;
+            "content:der-0x81-length"
+        }
+        _ => {
+            buf[1] = 0x82;
+            let d = declared(n - 4, src) as u16;
+            buf[2] = (d >> 8) as u8;
+            buf[3] = d as u8;
+            "content:der-0x82-length"
+        }
+    }
+}
+
 /// words: [kind, boundary selector, delta selector, capacity selector, values...]
 fn g_resp(src: &mut Src, obs: &mut Obs) -> CaseResult {
     let kind = src.below(3);
@@ -55,14 +92,21 @@ fn g_resp(src: &mut Src, obs: &mut Obs) -> CaseResult {
                 3 => 1,
                 _ => src.range(0, 1024),
             };
-            let cert = src.bytes(cl);
+            let mut cert = src.bytes(cl);
+            let cert_style = derify(&mut cert, src);
+            obs.label(cert_style);
             let sl = match src.below(5) {
                 0 => 0,
                 1 => 72,
                 2 => 71,
                 _ => src.range(0, 72),
             };
-            let sig = src.bytes(sl);
+            let mut sig = src.bytes(sl);
+            let _ = derify(&mut sig, src);
+            let mut kh = kh;
+            if src.chance(1, 4) {
+                let _ = derify(&mut kh, src);
+            }
             let key = cosey::EcdhEsHkdf256PublicKey { x: b(&x), y: b(&y) };
             let r = register::Response::new(header, &key, b(&kh), b(&sig), b(&cert));
             let mut pk = vec![0x04];
@@ -91,7 +135,8 @@ fn g_resp(src: &mut Src, obs: &mut Obs) -> CaseResult {
                 2 => 71,
                 _ => src.range(0, 72),
             };
-            let sig = src.bytes(sl);
+            let mut sig = src.bytes(sl);
+            let _ = derify(&mut sig, src);
             let r = authenticate::Response { user_presence: up, count, signature: b(&sig) };
             (Response::Authenticate(r), vec![("presence", vec![up]), ("counter", count.to_be_bytes().to_vec()), ("signature", sig)])
         }
@@ -196,7 +241,7 @@ pub fn gens() -> Vec<Gen> {
     vec![G_RESP]
 }
 
-pub const RULE: &str = "Register (via register::Response::new with random x, y; key-handle length 0..255, certificate 0..1024, signature 0..72, boundary lengths boosted), Authenticate (presence byte, counter over the big-endian byte patterns 0,1,0xFF,0x100,0x01020304,0x80000000,0xFFFFFFFF and random, signature 0..72) and Version responses, serialised into iso7816::Data<S> for S in {0,1,2,5,6,7,8,66,67,68,77,78,79,256,330,1024,1500,2048} pre-filled with a sentinel prefix whose length is chosen so that the REMAINING space is boundary-2 .. boundary+2 for every part boundary (header | key | length byte | handle | certificate | signature) - exhaustive over (kind, boundary, delta), proptest over contents and capacities. Oracle: model = concatenation per the statement; fits -> Ok(()) and buffer == prefix || model; does not fit -> Err(()), no panic, prefix bytes unchanged. Non-trivial: non-empty prefix or a failing capacity; distinct by (kind, message, capacity, prefix length).";
+pub const RULE: &str = "Register (via register::Response::new with random x, y; key-handle length 0..255, certificate 0..1024, signature 0..72, boundary lengths boosted), Authenticate (presence byte, counter over the big-endian byte patterns 0,1,0xFF,0x100,0x01020304,0x80000000,0xFFFFFFFF and random, signature 0..72) and Version responses, serialised into iso7816::Data<S> for S in {0,1,2,5,6,7,8,66,67,68,77,78,79,256,330,1024,1500,2048} with certificate / signature / key-handle contents that are either random or shaped like DER elements (SEQUENCE tag with a short, 0x81 or 0x82 length that is consistent, too short or too long), pre-filled with a sentinel prefix whose length is chosen so that the REMAINING space is boundary-2 .. boundary+2 for every part boundary (header | key | length byte | handle | certificate | signature) - exhaustive over (kind, boundary, delta), proptest over contents and capacities. Oracle: model = concatenation per the statement; fits -> Ok(()) and buffer == prefix || model; does not fit -> Err(()), no panic, prefix bytes unchanged. Non-trivial: non-empty prefix or a failing capacity; distinct by (kind, message, capacity, prefix length).";
 pub const ASSUMPTIONS: &[&str] = &["bytes after the prefix are unspecified when serialisation fails and are not asserted"];
 
 pub fn run(ctx: &mut Ctx) {
@@ -215,7 +260,7 @@ pub fn run(ctx: &mut Ctx) {
     ctx.random(&G_RESP, &[], ctx.t(20_000, 1_000_000), 600);
     ctx.exhaustive.push("every (response kind, part boundary, remaining-space delta -2..+2) combination".into());
     ctx.require(&[
-        "kind:register", "kind:authenticate", "kind:version", "fits", "overflow", "first-part-not-fitting:reserved",
+        "kind:register", "kind:authenticate", "kind:version", "fits", "overflow", "content:der-0x81-length", "content:der-0x82-length", "content:random", "first-part-not-fitting:reserved",
         "first-part-not-fitting:public-key", "first-part-not-fitting:handle-length", "first-part-not-fitting:key-handle",
         "first-part-not-fitting:certificate", "first-part-not-fitting:signature", "first-part-not-fitting:presence",
         "first-part-not-fitting:counter", "first-part-not-fitting:version",
